@@ -323,7 +323,7 @@ func c18Gen(t *rapid.T) c18Case {
 		// the same ring far from the origin (still exactly representable): convexity, winding and the
 		// segment rule are translation invariant, absolute ordinates must not leak into them
 		enc.Scale = 0
-		off := []int64{1 << 30, 1 << 40, 1 << 50, (1 << 52) - (1 << 21), -(1 << 30), -(1 << 45), -((1 << 52) - (1 << 21)), 0}
+		off := []int64{1 << 30, 1 << 40, 1 << 50, (1 << 52) - (1 << 21), 1 << 52, (1 << 53) - (1 << 22), -(1 << 30), -(1 << 45), -((1 << 52) - (1 << 21)), -(1 << 52), 0}
 		tx := rapid.SampledFrom(off).Draw(t, "tx")
 		ty := rapid.SampledFrom(off).Draw(t, "ty")
 		for i := range pts {
